@@ -89,7 +89,8 @@ impl Constraint {
                 extensible,
             }) = &set.set
             {
-                return Ok((min, max, *extensible));
+                // the marker may stand behind the element or behind the element set: ((0..255), ...)
+                return Ok((min, max, *extensible || set.extensible));
             }
         }
         Err(GrammarError::new(
@@ -105,7 +106,7 @@ impl Constraint {
                 extensible,
             }) = &set.set
             {
-                return Ok((value, *extensible));
+                return Ok((value, *extensible || set.extensible));
             }
         }
         Err(GrammarError::new(
